@@ -2,10 +2,13 @@ package checks
 
 import (
 	"fmt"
+	"os"
+	"strings"
 	"time"
 
 	jd "github.com/josephburnett/jd/v2"
 
+	"verif/mc/cli"
 	"verif/mc/engine"
 	"verif/mc/gen"
 	"verif/mc/impl"
@@ -81,6 +84,16 @@ func init() {
 			return m
 		},
 		Enum: func(tier string, e *engine.Emitter) {
+			// the real processes: jd -p -f merge PATCH TARGET and jd -p -f merge PATCH < TARGET
+			for _, bin := range []string{"jd-v2", "jd-top"} {
+				for _, t := range c12CLITargets {
+					for _, p := range c12CLIPatches {
+						for _, how := range []string{"file", "stdin"} {
+							e.Emit(engine.Case{Kind: "c12cli:" + bin, Leg: "cli/" + bin, A: t, B: p, X: how})
+						}
+					}
+				}
+			}
 			d := c12Docs(tier)
 			// two patches in a row on the live result of the first (start from non-initial states)
 			small := thin(c12Docs(tier).Filter(func(v V) bool { return ref.Nodes(v) <= 3 }), 40)
@@ -129,6 +142,43 @@ func hasEmptyObjectMember(v V, top bool) bool {
 	return false
 }
 
+var c12CLITargets = []string{`{"a":1,"b":{"c":2,"d":null},"e":[1,2]}`, `{"a":1,"big":"` + strings.Repeat("x", 70000) + `","c":3}`, `[1,2]`, `{}`, `"s"`,
+	"{\r\n  \"a\": 1,\r\n  \"b\": {\"c\": 2}\r\n}\r\n", `{"pct":"100%","b":{"c":"%s"}}`}
+var c12CLIPatches = []string{`{"a":null,"b":2}`, `{"b":{"c":null,"x":{"y":null,"z":1}}}`, `[3]`, `"t"`, `{"e":{"f":{}}}`, `{"big":null,"n":"` + strings.Repeat("p", 70000) + `"}`, `{"pct":"50%"}`}
+
+func runC12CLI(c *engine.Case) engine.Result {
+	bin := strings.TrimPrefix(c.Kind, "c12cli:")
+	res := engine.Result{Traces: 1, Transitions: 1, Nontrivial: true, Bucket: "cli/" + c.X}
+	want := ref.MergePatch(ref.MustParse(c.A), ref.MustParse(c.B))
+	dir := cli.TempDir()
+	defer os.RemoveAll(dir)
+	fp := cli.WriteFile(dir, "patch.json", c.B)
+	args := []string{"-p", "-f", "merge", fp}
+	var stdin *string
+	if c.X == "stdin" {
+		stdin = &c.A
+	} else {
+		args = append(args, cli.WriteFile(dir, "target.json", c.A))
+	}
+	out := cli.Run(dir, cli.Bin(bin), args, stdin)
+	clip := func(s string) string {
+		if len(s) > 200 {
+			return s[:200] + "..."
+		}
+		return s
+	}
+	got, perr := ref.Parse(out.Stdout)
+	switch {
+	case out.Timeout:
+		res.Violation = "CLI did not terminate"
+	case out.Exit != 0:
+		res.Violation = fmt.Sprintf("jd -p -f merge (target from %s): exit status %d, stderr %q", c.X, out.Exit, clip(firstLine(out.Stderr)))
+	case perr != nil || ref.IsVoid(got) || !ref.Equal(got, want, ref.List):
+		res.Violation = fmt.Sprintf("jd -p -f merge (target from %s) printed %q, RFC 7386 gives %s", c.X, clip(out.Stdout), clip(ref.JSON(want)))
+	}
+	return res
+}
+
 func runC12Seq(c *engine.Case) engine.Result {
 	tV, p1, p2 := ref.MustParse(c.A), ref.MustParse(c.B), ref.MustParse(c.C)
 	res := engine.Result{Traces: 1, Bucket: "two-patches", Nontrivial: true}
@@ -174,6 +224,9 @@ func runC12Seq(c *engine.Case) engine.Result {
 func runC12(c *engine.Case) engine.Result {
 	if c.Kind == "c12seq" {
 		return runC12Seq(c)
+	}
+	if strings.HasPrefix(c.Kind, "c12cli:") {
+		return runC12CLI(c)
 	}
 	tV, pV := ref.MustParse(c.A), ref.MustParse(c.B)
 	res := engine.Result{Traces: 1}
